@@ -114,6 +114,10 @@ type controller struct {
 
 	// The controller's sources, by watched GVK.
 	sources map[WatchID]*StoppableSource
+
+	// True once the controller was stopped. A stopped controller must not
+	// start new sources - nothing would ever stop them.
+	stopped bool
 }
 
 // A WatchGarbageCollector periodically garbage collects watches.
@@ -276,6 +280,7 @@ func (e *ControllerEngine) Stop(ctx context.Context, name string) error {
 
 	// Stop and delete the controller.
 	c.cancel()
+	c.stopped = true
 	delete(e.controllers, name)
 
 	e.log.Debug("Stopped controller", "controller", name)
@@ -396,6 +401,12 @@ func (e *ControllerEngine) StartWatches(name string, ws ...Watch) error {
 	// read lock, so we compute everything again.
 	c.mx.Lock()
 	defer c.mx.Unlock()
+
+	// The controller might have been stopped since we looked it up. If we
+	// started a source now its event handler would never be removed.
+	if c.stopped {
+		return errors.Errorf("controller %q is not running", name)
+	}
 
 	// Another Goroutine might also have started informers since we built the
 	// map of active informers, so we build it again. If we didn't we could
